@@ -290,3 +290,17 @@ package rules
 //@   ensures !ret0 ==> forall i int :: 0 <= i && i < len(m) ==> !tmMatches(old(m[i]), value)
 //@   ensures ret0 ==> 0 <= tm.n - old(tm.n) - 1 && tm.n - old(tm.n) - 1 < len(m) && tmMatches(before(m[tm.n - old(tm.n) - 1]), value)
 //@   loop 0 invariant idx + 1 <= len(m) && tm.n == old(tm.n) + idx + 1 && forall i int :: 0 <= i && i <= idx ==> !tmMatches(old(m[i]), value)
+
+// C19: getConfig panics on anything but nil or a map; mechanismRef checks that before calling it and
+// turns type-confused rule set entries into configuration errors.
+//@ func getConfig
+//@   props C19
+//@   safety nonil
+//@   pure
+//@   requires conf == nil || typeIs(conf, "map[string]any")
+
+//@ func mechanismRef
+//@   props C19
+//@   safety nonil
+//@   ensures !typeIs(id, string) ==> ret2 != nil
+//@   ensures conf != nil && !typeIs(conf, "map[string]any") ==> ret2 != nil
